@@ -136,12 +136,33 @@ def wrapped_bodies(rng, n):
     return out
 
 
+SPLIT_TOKENS = [   # tokens the clean-up takes apart (sign, percent sign, unit): the author's id stays with the whole of the token's text
+    "<mn id='n1'>-3</mn>", "<mrow><mi>x</mi><mo>=</mo><mn id='n2'>&#x2212;5</mn></mrow>", "<msup><mn id='n3'>-12</mn><mn>2</mn></msup>",
+    "<mrow><mn id='n4'>50%</mn><mo>+</mo><mn id='n5'>+7</mn></mrow>", "<mfrac><mn id='n6'>-1</mn><mn id='n7'>2</mn></mfrac>",
+    "<mrow><mn id='n8' class='c'>-4.5</mn><mo>&#xD7;</mo><mi id='n9'>k</mi></mrow>", "<mtable><mtr><mtd><mn id='n10'>-7</mn></mtd><mtd><mn id='n11'>8</mn></mtd></mtr></mtable>",
+    "<msqrt><mn id='n12'>-2</mn></msqrt>",
+    # a row that is left with one child (its white space goes into an attribute); scripts with an empty base gathered around a token
+    "<mrow id='r1'><mi id='t1'>x</mi><mspace width='1em'/></mrow>", "<msqrt><mrow id='r2'><mfrac id='t2'><mi>a</mi><mi>b</mi></mfrac><mspace width='1em'/></mrow></msqrt>",
+    "<mrow id='r3'><mo>(</mo><mi>x</mi><msup id='t3'><mo>)</mo><mn>2</mn></msup></mrow>", "<mrow><mi id='t4'>x</mi><msup><mrow/><mn>2</mn></msup></mrow>",
+    "<mrow><msub id='t5'><mrow/><mn>6</mn></msub><mi id='t6'>C</mi><msup><mrow/><mn>2</mn></msup></mrow>", "<mrow><mtext>&#xA0;</mtext><mn id='t7'>12</mn></mrow>",
+    # literals of an intent value have no id: nothing to point a bookmark at
+    "<msup intent='power($b,2)'><mi arg='b' id='t8'>x</mi><mn>2</mn></msup>", "<mrow intent='_(3,$a)'><mi arg='a' id='t9'>x</mi><mo>+</mo><mn>2</mn></mrow>", "<mrow><mo>(</mo><mn id='n13'>-6</mn><mo>,</mo><mn id='n14'>-9</mn><mo>)</mo></mrow>",
+]
+
+
+def norm_text(t):
+    return re.sub(r"[\s\u00a0\u2062\u2061\u2063\u2064]", "", t).replace("\u2212", "-")
+
+
 def api_oracle(res, rng):
-    bodies = list(X.FIXED) + [X.gen(rng, 3) for _ in range(20 if res.tier == "quick" else 300)] + wrapped_bodies(rng, 12 if res.tier == "quick" else 120)
+    bodies = list(X.FIXED) + [X.gen(rng, 3) for _ in range(20 if res.tier == "quick" else 300)] + wrapped_bodies(rng, 12 if res.tier == "quick" else 120) + SPLIT_TOKENS
     sessions, meta = [], []
+    hand_xmls = set()
     for b in bodies:
         for mode in ("some", "all", "dups"):
             xml, marks = with_author_ids(b, rng, mode)
+            if b in SPLIT_TOKENS:
+                hand_xmls.add(xml)
             ops = [["set_rules_dir", C.RULES], ["set_preference", "TTS", "SSML"], ["set_preference", "Bookmark", "true"],
                    ["set_mathml", X.math(xml)], ["get_spoken_text"], ["get_braille", ""]]
             for c in ("ZoomIn", "MoveNext", "MoveNext", "ZoomIn", "MoveLastLocation", "ZoomOutAll"):
@@ -207,6 +228,38 @@ def api_oracle(res, rng):
                               % (mid.group(1), text, re.search(r"\bid='([^']*)'", outs[0]).group(0) if re.search(r"\bid='([^']*)'", outs[0]) else "no id"), dict(rep, returned=m))
                 nv += 1
                 break
+        # the hand-written cases: every author id is still there, on an element of the same kind (a token taken apart: on the row of its parts)
+        if xml in hand_xmls:
+            for tag, aid in re.findall(r"<(\w+)\b[^>]*\bid='((?:n|t|r)\d+)'", xml):
+                if xml.count("id='%s'" % aid) != 1:
+                    continue
+                got = tag_of.get(aid)
+                if got is None or not (got == tag or (tag == "mn" and got == "mrow") or {got, tag} <= {"msup", "msub", "msubsup", "mmultiscripts"} or (tag == "mrow")):
+                    if tag == "mrow" and got is None:
+                        continue        # a row that is dissolved has no element left to carry its id
+                    res.violation("the author id %r of a <%s> is %s in the returned MathML" % (aid, tag, "gone" if got is None else "on a <%s>" % got), dict(rep, returned=m))
+                    nv += 1
+                    break
+        # ... and whatever element ends up with the author id of a plain token holds the whole of that token's text
+        try:
+            import xml.etree.ElementTree as ET
+            root = ET.fromstring(m)
+        except Exception:
+            root = None
+        if root is not None:
+            by_id = {e.get("id"): e for e in root.iter()}
+            for tag, attrs, text in re.findall(r"<(mi|mn|mtext)\b([^>]*)>([^<]+)</\1>", xml):
+                mid = re.search(r"\bid='([^']*)'", attrs)
+                text = text.replace("&#x2212;", "\u2212")
+                if not mid or "mathvariant" in attrs or len(marks.get(mid.group(1), [mid.group(1)])) != 1 or xml.count("id='%s'" % mid.group(1)) != 1:
+                    continue
+                if not re.match(r"^[-+\u2212]?[0-9A-Za-z.,%]+$", text) or mid.group(1) not in by_id:
+                    continue
+                have = norm_text("".join(by_id[mid.group(1)].itertext()))
+                if norm_text(text) not in have:
+                    res.violation("the author id %r of the token %r is on an element that holds only %r" % (mid.group(1), text, have), dict(rep, returned=m))
+                    nv += 1
+                    break
         idset = set(idl)
         handed = []
         for x in rs[4:]:
